@@ -10,7 +10,7 @@
 (*              (e*p) % 3                                                  *)
 (*   flip       reversal of every element (a,b,c) -> (a,c,b), to be        *)
 (*              compared with the swapped-normals flag on the original     *)
-(* A state is (mesh, action); it carries the transformed mesh and the maps *)
+(* A state is (mesh, actions applied so far); it carries the image and the maps *)
 (*   vmap : vertex -> vertex, emap : element -> element,                   *)
 (*   lmap : element -> permutation of local indices,                       *)
 (* so that vertex lmap[e][i] of element emap[e] in the image is the image  *)
@@ -20,7 +20,7 @@
 (***************************************************************************)
 EXTENDS Mesh, Universe, Polycube, Json
 
-CONSTANTS Bases, CellSets, Actions, EmitJson
+CONSTANTS Bases, CellSets, Actions, MaxDepth, EmitJson
 
 \* ready-made constant values
 ActionsQuick == {[kind |-> "rot", p |-> 2], [kind |-> "rot", p |-> 3], [kind |-> "rot", p |-> 6], [kind |-> "shift", p |-> 3],
@@ -76,10 +76,24 @@ Apply(m, a) ==
               [xyz |-> m.xyz, el |-> [e \in 1..ne |-> <<m.el[e][1], m.el[e][3], m.el[e][2]>>], vmap |-> idV, emap |-> idE,
                lmap |-> [e \in 1..ne |-> <<1, 3, 2>>], s |-> 1]
 
-Init == inp \in {[mesh |-> m.name, act |-> a] : m \in Meshes, a \in Actions}
+\* The system: a mesh is chosen (the identity image), then actions are applied one after the other, each to the current image; the maps
+\* compose.  MaxDepth bounds the number of actions (1: every (mesh, action) pair, the states that are replayed; 2: every product of two).
+IdImage(m) == LET nv == Len(m.xyz) ne == Len(m.el) IN
+    [xyz |-> m.xyz, el |-> m.el, vmap |-> [v \in 1..nv |-> v], emap |-> [e \in 1..ne |-> e], lmap |-> [e \in 1..ne |-> <<1, 2, 3>>], s |-> 1]
+Compose(old, step) ==
+    [xyz |-> step.xyz, el |-> step.el,
+     vmap |-> [v \in DOMAIN old.vmap |-> step.vmap[old.vmap[v]]],
+     emap |-> [e \in DOMAIN old.emap |-> step.emap[old.emap[e]]],
+     lmap |-> [e \in DOMAIN old.lmap |-> [i \in 1..3 |-> step.lmap[old.emap[e]][old.lmap[e][i]]]],
+     s |-> old.s * step.s]
+Init == /\ inp \in {[mesh |-> m.name, acts |-> <<>>] : m \in Meshes}
         /\ src = (CHOOSE m \in Meshes : m.name = inp.mesh)
-        /\ img = Apply(CHOOSE m \in Meshes : m.name = inp.mesh, inp.act)
-Next == FALSE /\ UNCHANGED vars
+        /\ img = IdImage(CHOOSE m \in Meshes : m.name = inp.mesh)
+Act(a) == /\ Len(inp.acts) < MaxDepth
+          /\ inp' = [inp EXCEPT !.acts = Append(@, a)]
+          /\ img' = Compose(img, Apply([xyz |-> img.xyz, el |-> img.el], a))
+          /\ UNCHANGED src
+Next == \E a \in Actions : Act(a)
 Spec == Init /\ [][Next]_vars
 
 \* the maps are consistent: the image of local vertex i of e is local vertex lmap[e][i] of emap[e]
@@ -94,18 +108,20 @@ GeometryFollows ==
 PlanPreserved ==
     \A e \in 1..Len(src.el), f \in 1..Len(src.el) :
         NShared(img.el, img.emap[e], img.emap[f]) = NShared(src.el, e, f)
+Kinds == {inp.acts[n].kind : n \in 1..Len(inp.acts)}
 OrientationRule ==
-    /\ (inp.act.kind = "rot" => Det(Rotations[inp.act.p]) = 1)
-    /\ (inp.act.kind # "flip" => (IsOriented(src.el) <=> IsOriented(img.el)))
+    /\ \A n \in 1..Len(inp.acts) : inp.acts[n].kind = "rot" => Det(Rotations[inp.acts[n].p]) = 1
+    /\ ("flip" \notin Kinds => (IsOriented(src.el) <=> IsOriented(img.el)))
 
 \* remap cases (which local vertices are shared) occurring in the image: coverage statistics for the harness
 EdgeCases(el) == {Matches(el, p[1], p[2]) : p \in EdgeAdjPairs(el)}
 VertexCases(el) == {Matches(el, p[1], p[2]) : p \in VertexAdjPairs(el)}
 
 Obligation ==
-    [ mesh |-> inp.mesh, act |-> inp.act, xyz |-> src.xyz, el |-> src.el,
+    [ mesh |-> inp.mesh, act |-> inp.acts[1], xyz |-> src.xyz, el |-> src.el,
       xyz2 |-> img.xyz, el2 |-> img.el, vmap |-> img.vmap, emap |-> img.emap, lmap |-> img.lmap, s |-> img.s,
       closed |-> IsClosed(src.el),
       edgeCases |-> Cardinality(EdgeCases(img.el)), vertexCases |-> Cardinality(VertexCases(img.el)) ]
-Emit == EmitJson => PrintT("OBL " \o ToJson(Obligation))
+\* the states that are replayed into the library: one action applied
+Emit == (EmitJson /\ Len(inp.acts) = 1) => PrintT("OBL " \o ToJson(Obligation))
 =============================================================================
